@@ -141,6 +141,9 @@ def check(col: Collector, tier: str):
         v = ds[0] if len(ds) == 1 else None
         depth += 1
     ok = isinstance(v, ast.BinOp) and isinstance(v.op, ast.Add) and src(v.left) == "qv.include_files()"
+    from sa.props._tr import import_obligations as _imp12
+    _imp12(col, "C12.R8", "c06", lambda o: o.detail == "appended-once-under-not-in" and o.construct.endswith("add_include"),
+           "cmath requested by a math function must be kept whatever was requested before it (math.h does not declare std::sqrt)")
     col.add("C12.R8", wf.short, "requested-headers-reach-the-templates-unfiltered", ok,
             f"info['body_include_files'] must be qv.include_files() + <injected includes> (found {src(v) if v is not None else None}): filtering it "
             "(e.g. against the header includes, which the single-file CMS templates never render) drops <cmath>", wf.loc)
